@@ -346,8 +346,21 @@ func joinFilter(a []any, sep func(string) string) any {
 	s := sep(" ")
 	for _, v := range a {
 		v = values.ToLiquid(v) // a Drop joins as the value it stands for
+		// a pointer joins as what it points to (not as its address), a nil pointer like nil
+		for rv := reflect.ValueOf(v); rv.Kind() == reflect.Ptr; rv = reflect.ValueOf(v) {
+			if rv.IsNil() {
+				v = nil
+				break
+			}
+			v = values.ToLiquid(rv.Elem().Interface())
+		}
 		if v != nil {
-			ss = append(ss, fmt.Sprint(v))
+			// spelled as it prints: a whole float without an exponent
+			str, err := values.Convert(v, reflect.TypeOf(""))
+			if err != nil {
+				str = fmt.Sprint(v)
+			}
+			ss = append(ss, str.(string))
 		}
 	}
 	return strings.Join(ss, s)
